@@ -146,7 +146,8 @@ partial def declOfJson (j : Json) : Except String FieldDecl := do
       ignoreNone := ← optBool j "ignoreNone" false
       immutable := ← optBool j "immutable" false
       accepts := ← strList j "accepts"
-      inline := ← optBool j "inline" false }
+      inline := ← optBool j "inline" false
+      immFields := ← strList j "immFields" }
     let fields ← (← kvList j "fields").mapM fun (k, d) => do pure (k, ← declOfJson d)
     let defaults ← (← kvList j "defaults").mapM fun (k, d) => do pure (k, ← valOfJson d)
     pure (.struct c fields defaults)
